@@ -71,9 +71,12 @@ Definition check_soft (tau : Q) (pf counter : nat) (t0 : list Q) (trace : list (
   && all_close (tol_w * inject_Z (Z.of_nat (length trace)))
        (run_soft tau pf counter t0 (map fst trace)) (last (map snd trace) t0).
 
-(* Rainbow: the hypotheses of done_masks_next_rainbow hold for the observed rows — every target distribution has as
-   many atoms as the support and total mass 1 (float32 softmax: within 1e-5), as has exp(log-probabilities) trivially
-   in length *)
-Definition check_rainbow_mass (support : list Q) (rows : list rrow) : bool :=
+(* Rainbow: every observed target distribution has as many atoms as the support and a total mass of at least 1 and at
+   most 1 + N * 1e-3: the network returns softmax(...).clamp(min=1e-3) WITHOUT renormalising, so atoms below 1e-3 are
+   lifted and the mass exceeds 1 (rb_clamp_mass_bound).  [strict] asks for mass 1 (the hypothesis under which
+   done_masks_next_rainbow gives an exactly unchanged loss). *)
+Definition check_rainbow_mass (strict : bool) (support : list Q) (rows : list rrow) : bool :=
   forallb (fun x => Nat.eqb (length (r_p x)) (length support) && Nat.eqb (length (r_logp x)) (length support)
-                    && close (1 # 100000) (qsum (r_p x)) 1) rows.
+                    && Qle_bool (1 - (1 # 100000)) (qsum (r_p x))
+                    && Qle_bool (qsum (r_p x))
+                         (if strict then 1 + (1 # 100000) else 1 + qlen support * (1 # 1000) + (1 # 100000))) rows.
